@@ -77,10 +77,21 @@ def r01_1(ctx: Ctx) -> None:
             for value in values:
                 ctx.call_sites += 1
                 gs = guards(value, stop=func)
-                circ = [(t, pol) for t, pol in gs if "circular_origin" in txt(t)]
+
+                def plain(expr: ast.AST) -> str:
+                    """ the text of the expression with local copies of an attribute (`origin = self.circular_origin`) read through """
+                    from ..kernel import subst
+                    env = {}
+                    for sub in ast.walk(expr):
+                        if isinstance(sub, ast.Name) and sub.id not in env:
+                            held = bound_from(func, sub.id)
+                            if held and len(held) == 1 and isinstance(held[0], (ast.Attribute, ast.Name)):
+                                env[sub.id] = held[0]
+                    return txt(subst(expr, env)) if env else txt(expr)
+                circ = [(t, pol) for t, pol in gs if "circular_origin" in plain(t)]
                 has_wrap = kwarg(value, "wrap_point") is not None
                 want_wrap = bool(circ) and all(pol == (not isinstance(t, ast.UnaryOp)) for t, pol in circ)
-                ok = has_wrap == want_wrap and (not has_wrap or txt(kwarg(value, "wrap_point")) == "self.circular_origin")
+                ok = has_wrap == want_wrap and (not has_wrap or plain(kwarg(value, "wrap_point")) == "self.circular_origin")
                 ctx.ob("R01.1", RP, value, "Details.in_range", "distance call " + ("with" if has_wrap else "without") + " wrap",
                        ok, "the ring distance (wrap_point=self.circular_origin) is used iff the circular flag is set",
                        form=f"{txt(value)} under {[(txt(t), p) for t, p in gs]}")
